@@ -118,7 +118,8 @@ theorem C05_counterexample_F1 :
 theorem C05_wiped_by_lock (cfg : Cfg) (hf1 : cfg.f1 = true) (hf11 : cfg.f11 = true) (m : Mem) :
     KeyClear (lockMem cfg m) := keyClear_lockMem cfg hf1 hf11 m
 
-/-- `Lock()` that succeeds leaves every key buffer clear — for every state, hence after every history. -/
+/-- `Lock()` that succeeds leaves every key buffer clear — for every state, hence after every history.  That every
+reachable LOCKED state is clear (not only the one right after `Lock()`) is `C05_wiped_histories` below (needs f13). -/
 theorem C05_wiped (cfg : Cfg) (hf1 : cfg.f1 = true) (hf11 : cfg.f11 = true) (m : Mem)
     (h : (lockOp cfg m).2 = none) : KeyClear (lockOp cfg m).1 ∧ (lockOp cfg m).1.locked = true := by
   unfold lockOp at h ⊢
@@ -525,7 +526,8 @@ manager locked (whether it was locked or unlocked before).  `_partial`: the hypo
 salt fix (f12 = false) the histories must not use the EMPTY private passphrase (see `C05_counterexample_F12` for what
 goes wrong otherwise — for the *right* passphrase; the wrong-passphrase clause itself is not known to fail).  On the
 current tree (/repo aeb55de and later, f12 = true, detected by the engine's probe) the first disjunct of `hc` holds
-and the statement covers every history. -/
+and the statement covers every history.
+SUPERSEDED for the current tree by `C05_unlock_wrong_histories` below (no hypothesis `hc`). -/
 theorem C05_unlock_wrong_histories_partial (cfg : Cfg) (ops : List Op)
     (hc : cfg.f12 = true ∨ ∀ op ∈ ops, op.noEmpty = true) (m : Mem)
     (hm : (run { cfg := cfg } ops).mem = some m) (hw : m.watchOnly = false) (p : Nat) (hp : p ≠ m.privPass) (d : Disk) :
@@ -535,7 +537,9 @@ theorem C05_unlock_wrong_histories_partial (cfg : Cfg) (ops : List Op)
 /-- after every history (same restriction), on the fixed tree (f2, f2b): the current passphrase unlocks.
 `_partial`: `DouOK` (every queued derive-on-unlock address belongs to a cached account) is a hypothesis here; it
 is a structural invariant of the model (entries are only appended right after their account was cached, the
-account cache never shrinks) that is exercised by the differential run but not yet proved over histories. -/
+account cache never shrinks) that was not proved over histories when this theorem was written.
+SUPERSEDED for the current tree by `C05_unlock_right_histories` below: `DouOK` is now proved for every history
+(`C05_douOK_invariant`) and `hc` is discharged by the configuration. -/
 theorem C05_unlock_right_histories_partial (cfg : Cfg) (hf2 : cfg.f2 = true) (hf2b : cfg.f2b = true) (ops : List Op)
     (hc : cfg.f12 = true ∨ ∀ op ∈ ops, op.noEmpty = true) (m : Mem)
     (hm : (run { cfg := cfg } ops).mem = some m) (hw : m.watchOnly = false) (hd : DouOK m) (d : Disk) :
